@@ -83,12 +83,25 @@ fn de_text<T: serde::de::DeserializeOwned + serde::Serialize>(input: &str) -> St
     }
 }
 fn de_dbg<T: serde::de::DeserializeOwned + serde::Serialize + std::fmt::Debug>(input: &str) -> String {
+    // both entry points: from the text (borrowed strings possible) and from a parsed `Value` (owned strings only)
+    let via: Result<String, String> = via_value::<T>(input).map(|v| format!("{:?}", v));
     match serde_json::from_str::<T>(input) {
         Ok(v) => match serde_json::to_string(&v) {
-            Ok(s) => format!("ok {}", serde_json::to_string(&(serde_json::from_str::<serde_json::Value>(&s).unwrap(), format!("{:?}", v))).unwrap()),
+            Ok(s) => {
+                let dbg = format!("{:?}", v);
+                if via.as_ref().ok() != Some(&dbg) {
+                    return format!("err from_str and from_value disagree: {} / {:?}", dbg, via);
+                }
+                format!("ok {}", serde_json::to_string(&(serde_json::from_str::<serde_json::Value>(&s).unwrap(), dbg)).unwrap())
+            }
             Err(e) => format!("sererr {}", e.to_string().replace('\n', " ")),
         },
-        Err(e) => format!("err {}", e.to_string().replace('\n', " ")),
+        Err(e) => {
+            if via.is_ok() {
+                return format!("err from_str and from_value disagree: {} / {:?}", e.to_string().replace('\n', " "), via);
+            }
+            format!("err {}", e.to_string().replace('\n', " "))
+        }
     }
 }
 fn de_only<T: serde::de::DeserializeOwned>(input: &str) -> String {
